@@ -33,6 +33,18 @@ def main():
             n1, n2 = {"default": ("v", ""), "value": ("", "v"), "both": ("k", "v")}[mode]
             colls.append({"op": rnd.choice(["any", "all"]), "sel": {"ty": "bexpr", "path": list(key)}, "mode": mode, "n1": n1, "n2": n2})
         combo = list(range(b0, len(atoms)))
+        if wn == "containers":
+            # two selectors in one expression whose dotted texts coincide although their paths differ
+            def both(p1, v1, p2, v2):
+                return {"t": "and", "l": match(p1, "==", v1), "r": match(p2, "==", v2), "val": "", "hv": False, "mode": "", "n1": "", "n2": ""}
+            atoms += [both(["odd", "x.y"], "dotted", ["odd", "x", "y"], "nested"), both(["odd", "x", "y"], "nested", ["odd", "x.y"], "dotted"),
+                      both(["odd", "c/d"], "slashed", ["odd", "c", "d"], "nested2"), both(["odd", "c", "d"], "nested2", ["odd", "c/d"], "slashed"),
+                      both(["odd", "a/b"], "slash", ["odd", "a~1b"], "tilde")]
+            # parts are matched exactly: case and blanks matter (judged against the reference outcome below)
+            exact = [match(["odd", "upper"], "==", "only-capitalised"), match(["odd", "UPPER"], "empty"), match(["odd", "trim "], "==", "exact"),
+                     match(["odd", " trim"], "!=", "exact"), match(["odd", "sp"], "==", "spaces"), match(["odd", "KEY"], "==", "upper"), match(["Odd", "key"], "==", "lower")]
+            e0 = len(atoms)
+            atoms += exact
         world = vlib.make_world([wn], data["docs"], data["cfgs"], cfgsel, atoms, combo, colls, 2)
         tag = "c07-" + wn
         summ, bad = vlib.run_relate(chk, tag, world, "c07", invariants=("BuilderOK", "LawSpell"), module="Laws")
@@ -45,6 +57,12 @@ def main():
             chk.violation({"law": "spellings agree", "group": {k: v for k, v in g.items() if k != "info"}, "info": g["info"]})
         for s in summ["samples"][:2]:
             chk.sample(s)
+        if wn == "containers":
+            res = vlib.run_world(chk, tag + "-exact", world, module="Laws", invariants=("BuilderOK", "LawSpell"))
+            texts = {json.dumps(a["sel"]["path"]) for a in exact}
+            for m in res["mismatches"]:
+                if m.get("text") != "...more" and m["tree"].get("sel") and json.dumps(m["tree"]["sel"]["path"]) in texts:
+                    chk.violation({"law": "path parts are matched exactly (case, blanks)", "expr": m["text"], "spec": m["want"], "impl": m["got"]["o"]})
     chk.cov["distinct_nontrivial"] = nontrivial
     chk.notes["rule"] = ("every structural path of the worlds (keys with '/', '~', blanks, leading zeros, case variants, empty; list indexes) "
                          "as match selector, as quantified collection and inside bodies, in every admissible pair of spellings; "
